@@ -138,6 +138,14 @@ func main() {
 				continue
 			}
 			ids = append(ids, p[0])
+			if strings.Contains(p[1], ";") {
+				var g [][][]byte
+				for _, c := range strings.Split(p[1], ";") {
+					g = append(g, decL(c))
+				}
+				vecs = append(vecs, vector{group: g, args: [][]byte{[]byte("__pipeline")}, base: "replay", mut: "replay"})
+				continue
+			}
 			vecs = append(vecs, vector{args: decL(p[1]), base: "replay", mut: "replay"})
 		}
 	} else {
@@ -201,6 +209,8 @@ func main() {
 		if *big {
 			vecs = append(vecs, dictionarySweep(names)...)
 			vecs = append(vecs, liveCollectionBig()...)
+			vecs = append(vecs, manyCollections()...)
+			vecs = append(vecs, bigListRegrow()...)
 			bv := bigVectors()
 			// spread them over the run
 			for i, v := range bv {
@@ -531,6 +541,21 @@ func main() {
 		}
 	}
 
+	if *big && *replay == "" {
+		for gi, group := range pipelineGroups(names) {
+			step(fmt.Sprintf("pipeline:g%d", gi))
+			var hs []string
+			for _, c := range group {
+				hs = append(hs, encL(c))
+			}
+			fmt.Fprintf(jf, "g%d\t%s\n", gi, strings.Join(hs, ";"))
+			ln.cached = nil
+			nrep, nerr, closed, tmo := ln.rc.pipeline(group, 2*time.Second)
+			ln.reconnect()
+			oo.Printf("Gg%d\tpipeline=%d replies=%d errors=%d closed=%v timeout=%v\n", gi, len(group), nrep, nerr, closed, tmo)
+		}
+		flushAll()
+	}
 	for i, v := range vecs {
 		id := ids[i]
 		name := strings.ToLower(string(v.args[0]))
@@ -557,6 +582,18 @@ func main() {
 			}
 		}
 		co.mute, io.mute = huge, huge
+		if v.group != nil {
+			var hs []string
+			for _, c := range v.group {
+				hs = append(hs, encL(c))
+			}
+			fmt.Fprintf(jf, "%s\t%s\n", id, strings.Join(hs, ";"))
+			ln.cached = nil
+			nrep, nerr, closed, tmo := ln.rc.pipeline(v.group, 2*time.Second)
+			ln.reconnect()
+			oo.Printf("G%s\tpipeline=%d replies=%d errors=%d closed=%v timeout=%v\n", id, len(v.group), nrep, nerr, closed, tmo)
+			continue
+		}
 		if name == "__sleep" && len(v.args) == 2 {
 			// replay files only: let wall-clock time pass (live node) and move the replicas' clock
 			ms, _ := strconv.Atoi(string(v.args[1]))
@@ -605,12 +642,7 @@ func main() {
 			}
 			ln.cached = nil
 			nrep, nerr, closed, tmo := ln.rc.pipeline(group, 2*time.Second)
-			if closed || tmo {
-				ln.rc.c.Close()
-				if rc2, e := dial(ln.port); e == nil {
-					ln.rc = rc2
-				}
-			}
+			ln.reconnect()
 			oo.Printf("G%s\tpipeline=%d replies=%d errors=%d closed=%v timeout=%v\n", id, n, nrep, nerr, closed, tmo)
 		}
 		step("live:" + id)
